@@ -93,7 +93,7 @@ def r1_deciders(ctx) -> None:
 
 def r1(ctx) -> None:
     repo = ctx.repo
-    lib.check_no_loop_escape(ctx, "C05-R1", ("glotaran/builtin/megacomplexes/decay/", "glotaran/model/irf.py"), 3)
+    lib.check_no_loop_escape(ctx, "C05-R1", ("glotaran/builtin/megacomplexes/decay/", "glotaran/optimization/matrix_provider.py"), 3)
     f = ctx.fn(DUT, "decay_matrix_implementation_index_dependent")
     fl = lib.flow(f, repo)
     loops = [n for n in lib.nodes(f, ast.For)]
